@@ -46,6 +46,8 @@ TrShmUnlink == IsEvent("shm_unlink") /\ Consume /\ names' = names \ {<<"shm", Ev
 TrDlOpen == IsEvent("dlopen") /\ Consume /\ (IF Ev.id > 0 THEN libs' = Inc(libs, Ev.id) ELSE libs' = libs) /\ UNCHANGED <<mem, fds, files, dirs, maps, sems, names, base>>
 TrDlClose == IsEvent("dlclose") /\ Consume /\ Ev.id \in DOMAIN libs /\ libs' = Dec(libs, Ev.id) /\ UNCHANGED <<mem, fds, files, dirs, maps, sems, names, base>>
 TrResidue == IsEvent("residue") /\ Consume /\ Ev.id \in mem /\ mem' = mem \ {Ev.id} /\ UNCHANGED <<fds, files, dirs, maps, sems, names, libs, base>>
+(* a failed p_socket_new_from_fd leaves the caller's descriptor open (it was never the library's) *)
+TrCallerFd == IsEvent("caller_fd") /\ Consume /\ Ev.alive = 1 /\ Ev.fd \notin fds /\ UNCHANGED lv
 TrStep == (IsEvent("acq") \/ IsEvent("rel")) /\ Consume /\ UNCHANGED lv
 TrBaseline == IsEvent("baseline") /\ Consume /\ base' = <<Ev.nfd, Ev.nshmmaps, Ev.ntasks>> /\ UNCHANGED <<mem, fds, files, dirs, maps, sems, names, libs>>
 (* every object has been freed: the ledger is empty and the independent snapshot equals the baseline *)
@@ -55,6 +57,6 @@ TrQuiesce == /\ IsEvent("quiesce") /\ Consume
              /\ UNCHANGED lv
 TrReset == IsEvent("Reset") /\ Consume /\ mem' = {} /\ fds' = {} /\ files' = {} /\ dirs' = {} /\ maps' = {} /\ sems' = <<>> /\ names' = {} /\ libs' = <<>> /\ UNCHANGED base
 TNext == TrAlloc \/ TrRealloc \/ TrFree \/ TrFdOpen \/ TrFdClose \/ TrFileOpen \/ TrFileClose \/ TrDirOpen \/ TrDirClose \/ TrMmap \/ TrMunmap
-         \/ TrSemOpen \/ TrSemClose \/ TrSemUnlink \/ TrShmOpen \/ TrShmUnlink \/ TrDlOpen \/ TrDlClose \/ TrResidue \/ TrStep \/ TrBaseline \/ TrQuiesce \/ TrReset
+         \/ TrSemOpen \/ TrSemClose \/ TrSemUnlink \/ TrShmOpen \/ TrShmUnlink \/ TrDlOpen \/ TrDlClose \/ TrResidue \/ TrCallerFd \/ TrStep \/ TrBaseline \/ TrQuiesce \/ TrReset
 TSpec == TInit /\ [][TNext]_tv
 ====
